@@ -1,5 +1,5 @@
 use crate::error::Converter;
-use crate::xml::E57Tag;
+use crate::xml::{number_text, E57Tag};
 use crate::Result;
 use roxmltree::Node;
 
@@ -17,23 +17,20 @@ impl DateTime {
         let gps_time_text = node
             .children()
             .find(|n| n.is_e57_tag("dateTimeValue") && n.attribute("type") == Some("Float"))
-            .invalid_err("Unable to find XML tag 'dateTimeValue' with type 'Float'")?
-            .text();
-        let gps_time = if let Some(text) = gps_time_text {
-            text.parse::<f64>()
-                .invalid_err("Failed to parse inner text of XML tag 'dateTimeValue' as double")?
-        } else {
-            // An empty float element stands for the value zero
-            0.0
-        };
+            .invalid_err("Unable to find XML tag 'dateTimeValue' with type 'Float'")?;
+        // An empty float element stands for the value zero
+        let gps_time = number_text(&gps_time_text)
+            .parse::<f64>()
+            .invalid_err("Failed to parse inner text of XML tag 'dateTimeValue' as double")?;
 
         let atomic_reference_node = node.children().find(|n| {
             n.is_e57_tag("isAtomicClockReferenced") && n.attribute("type") == Some("Integer")
         });
+        // The flag is optional and not set by default
         let atomic_reference = if let Some(node) = atomic_reference_node {
-            node.text().unwrap_or("0").trim() == "1"
+            number_text(&node) == "1"
         } else {
-            return Ok(None);
+            false
         };
 
         Ok(Some(Self {
